@@ -132,7 +132,7 @@ def check(case):
 def case_st(draw):
     n = draw(st.integers(1, 3))
     prog = draw(gen.program_st(max_features=n, faults=False, max_items=3,
-                               outcomes=["pass", "pass", "fail", "raise", "undefined", "pending", "skip"],
+                               outcomes=["pass", "pass", "fail", "raise", "undefined", "pending", "skip", "convert"],
                                cfg=gen.cfg_st(flags=("stop",), p_tags=0.3)))
     if draw(st.integers(0, 3)) == 0:
         prog["hook_faults"] = [[draw(st.integers(0, 10000)), "Exception"]]
